@@ -118,6 +118,19 @@ def run(ctx):
             okr = sym_is_call(ret, "From::from", "Into::into", "KeyName::from_const_str") or "KeyName" in sym_str(ret)
         chk.ob("C13.b", f.path, ok and okr, "name = prefix + '.' + old name; labels unchanged" if ok and okr else f"prefixed name is not prefix,'.',name in that order ({detail}); result {sym_str(ret)[:120]}", f.loc())
 
+    # the configured prefix is the prefix: the layer stores the text it was given, in whatever owned form
+    from props.common import transformations
+
+    pl = [f for f in u.fns if f.name == "new" and strip_generics(f.j.get("impl_self", "")).endswith("prefix::PrefixLayer")]
+    if len(pl) == 1:
+        r = strip_sym(Sym(pl[0]).local(0))
+        v = strip_sym(r[3][0]) if r[0] == "agg" and len(r[3]) == 1 else r
+        tr = transformations(v)
+        okp = tr == [] and is_param(_root_through_calls(v), 0)
+        chk.ob("C13.b", pl[0].path, okp, "PrefixLayer::new stores the given prefix unchanged" if okp else f"PrefixLayer::new does not store the prefix as given ({'it is passed through ' + ', '.join(tr) if tr else 'not derived from the parameter alone'}): names are not '<prefix>.<name>' for that prefix", pl[0].loc())
+    else:
+        chk.unrecognised("C13.b", "<anchor> PrefixLayer::new", f"found {len(pl)}")
+
     # ---------------- C13.c filter
     filt = layer_impls.get("Filter")
     if filt:
@@ -162,6 +175,45 @@ def run(ctx):
             chk.ob("C13.c", f.path, ok, "automaton = builder.ascii_case_insensitive(self.case_insensitive)...build(&self.patterns); inner recorder stored unchanged" if ok else "FilterLayer::layer does not build the automaton from self.patterns with self.case_insensitive", f.loc())
         else:
             chk.unrecognised("C13.c", "<anchor> FilterLayer::layer", "missing")
+        # every configured pattern is a pattern: add_pattern appends what it is given on every path, from_patterns keeps
+        # every element as it is
+        ap = [f for f in u.fns if f.name == "add_pattern" and f.j.get("impl_self", "").endswith("filter::FilterLayer")]
+        if len(ap) == 1:
+            f = ap[0]
+            pushes = [c for c in nonforeign_calls(f) if c.fn is f and c.is_("Vec<T, A>::push") and self_field(sym_through(arg_syms(c)[0], "DerefMut::deref_mut", "Deref::deref"), "patterns")]
+            ok = len(pushes) == 1
+            why = f"{len(pushes)} pushes onto self.patterns"
+            if ok:
+                tr = transformations(arg_syms(pushes[0])[1])
+                skip = [r for r in f.body.return_blocks() if not f.body.blocks[r].get("cleanup") and r in f.body.reachable(0, cut={pushes[0].bb})]
+                ok = tr == [] and is_param(_root_through_calls(arg_syms(pushes[0])[1]), 1) and not skip
+                why = "some path returns without adding the pattern (a later search does not filter names containing it)" if skip else (f"the pattern is passed through {tr}" if tr else "the pushed value is not the pattern parameter")
+            chk.ob("C13.c", f.path, ok, "add_pattern pushes the given pattern, unconditionally" if ok else f"add_pattern does not add exactly the given pattern on every path ({why})", f.loc())
+        fp = [f for f in u.fns if f.name == "from_patterns" and f.j.get("impl_self", "").endswith("filter::FilterLayer")]
+        if len(fp) == 1:
+            f = fp[0]
+            r = strip_sym(Sym(f).local(0))
+            pv = strip_sym(r[3][r[4].index("patterns")]) if r[0] == "agg" and "patterns" in (r[4] or ()) else None
+            ok = False
+            why = "the patterns field is not collect()ed from the parameter"
+            if pv is not None and sym_is_call(pv, "Iterator::collect"):
+                chain = []
+                cur = strip_sym(pv[2][0])
+                mapf = None
+                while cur[0] == "call":
+                    n_ = strip_generics(cur[1]).split("::")[-1]
+                    chain.append(n_)
+                    if n_ == "map":
+                        mapf = strip_sym(cur[2][1])
+                    cur = strip_sym(cur[2][0])
+                ok = is_param(cur, 0) and set(chain) <= {"map", "into_iter", "iter", "cloned", "copied"}
+                why = f"elements go through {chain}"
+                if ok and mapf is not None:
+                    cf = u.fn(mapf[5]) if mapf[0] == "agg" and mapf[1] == "closure" else None
+                    tr = transformations(Sym(cf).local(0)) if cf else None
+                    ok = tr == []
+                    why = f"each pattern is passed through {tr}"
+            chk.ob("C13.c", f.path, ok, "from_patterns keeps every given pattern as it is" if ok else f"from_patterns does not keep every pattern unchanged ({why})", f.loc(), nontrivial=False)
 
     # ---------------- C13.d router
     if layer_impls.get("Router"):
@@ -413,6 +465,21 @@ def _router_kind_tries(u):
             return None
         out[k] = hit
     return out if len(set(out.values())) == 3 else None
+
+
+def _root_through_calls(s):
+    """The base a chain of conversions/projections starts from."""
+    s = strip_sym(s)
+    for _ in range(16):
+        if not isinstance(s, tuple) or not s:
+            return s
+        if s[0] in ("ref", "deref", "cast", "field", "downcast"):
+            s = strip_sym(s[1])
+        elif s[0] == "call" and s[2]:
+            s = strip_sym(s[2][0])
+        else:
+            return s
+    return s
 
 
 def mask_table(u):
